@@ -1,13 +1,23 @@
 """C18 - context-local data never leaks between concurrent contexts  (partial: see assumptions).
 
-Stream `contexts`: interleavings of set/get/del/iter/push/pop/top/release/proxy operations and
-context creation over 2-4 execution contexts, realised three ways -
+Stream `contexts`: histories of operations over 1-4 execution contexts, realised three ways -
   ctx     contextvars.Context objects (copy_context for children), operations via Context.run
   thread  one real thread per context, stepped by barriers (children run inside copy_context().run)
   async   one asyncio task per context (children created with create_task inside the parent task)
+Operations: set/get/del/iter on two Locals, push/pop/top on a LocalStack, release_local,
+LocalManager.cleanup (list / appended / WSGI middleware / single-Local forms, built on the spot), persistent
+LocalManager objects in every constructor form (`mnew`: one Local / list / tuple / iterator / appended
+later) cleaned up directly or through make_middleware / middleware (`mclean`), spawn / fresh context;
+object lifecycle: `new` (construct a new Local / LocalStack into a slot - the harness hunts for the
+address of a discarded instance), `drop`, `gc`, dropping proxies; proxies of every constructor form
+(Local+name, LocalStack, LocalStack+name, ContextVar, ContextVar+name, callable, callable+name, callable
+asking another proxy), `cvset` on bare ContextVars, read / mutate through a proxy, and `plook`: one of
+~75 forwarded special methods applied through the proxy (bound: must reach exactly the object bound in
+the accessing context, in-place operators must hand back the proxy; unbound: RuntimeError or the
+declared fallback).
 After every step every context is observed (iteration of both Locals, top of the stack); at the end
 every stack is popped empty. The whole trace is compared with
-  * a reference model holding one immutable mapping / tuple per context (the oracle), and
+  * a reference model holding one immutable mapping / tuple per (context, instance) (the oracle), and
   * the Lean heap model running the effect lists translated from local.py (driver `trace`).
 """
 from __future__ import annotations
@@ -24,17 +34,115 @@ LOCAL_VARS = (0, 2)
 STACK_VAR = 1
 
 
+PROBE_LOG = None  # a list while a forwarded operation is being probed: (box id, special method)
+
+
 class Box:
-    """kind 0: identity `bid`, one mutable field `val`; truthy"""
+    """kind 0: identity `bid`, one mutable field `val`; truthy. `peer` is another registry object
+    (id + 64), the attribute the named proxies (`LocalProxy(x, "peer")`) read. Every special method a
+    LocalProxy forwards is defined and records (while PROBE_LOG is a list) on which object it ran."""
 
-    __slots__ = ("bid", "val")
+    __slots__ = ("bid", "val", "_reg")
 
-    def __init__(self, bid):
+    def __init__(self, bid, reg=None):
         self.bid = bid
         self.val = 0
+        self._reg = reg
 
     def __repr__(self):
         return f"Box({self.bid})"
+
+    @property
+    def peer(self):
+        return self._reg.get(self.bid + 64)
+
+    def __eq__(self, other):
+        if PROBE_LOG is not None:
+            PROBE_LOG.append((self.bid, "__eq__"))
+            return True
+        return self is other
+
+    def __hash__(self):
+        if PROBE_LOG is not None:
+            PROBE_LOG.append((self.bid, "__hash__"))
+        return self.bid
+
+
+def _probe(name, ret):
+    def method(self, *a, **kw):
+        if PROBE_LOG is not None:
+            PROBE_LOG.append((self.bid, name))
+        return self if ret is _SELF else ret() if callable(ret) else ret
+
+    method.__name__ = name
+    return method
+
+
+_SELF = object()
+_RET = {"__str__": "s", "__bytes__": b"b", "__format__": "f", "__int__": 1, "__index__": 1, "__float__": 1.0, "__complex__": 1j, "__round__": 1, "__trunc__": 1, "__floor__": 1, "__ceil__": 1, "__contains__": True, "__iter__": lambda: iter(()), "__reversed__": lambda: iter(()), "__dir__": lambda: ["x"], "__exit__": False}
+BINARY = ["add", "sub", "mul", "matmul", "truediv", "floordiv", "mod", "divmod", "pow", "lshift", "rshift", "and", "xor", "or"]
+INPLACE = [b for b in BINARY if b != "divmod"]
+FORWARDED = (
+    ["__str__", "__bytes__", "__format__", "__lt__", "__le__", "__ne__", "__gt__", "__ge__", "__call__", "__getitem__", "__setitem__", "__delitem__", "__iter__", "__next__", "__reversed__", "__contains__"]
+    + [f"__{b}__" for b in BINARY]
+    + [f"__r{b}__" for b in BINARY]
+    + [f"__i{b}__" for b in INPLACE]
+    + ["__neg__", "__pos__", "__abs__", "__invert__", "__complex__", "__int__", "__float__", "__index__", "__round__", "__trunc__", "__floor__", "__ceil__", "__enter__", "__exit__", "__copy__", "__deepcopy__", "__dir__"]
+)
+for _n in FORWARDED:
+    setattr(Box, _n, _probe(_n, _SELF if _n.startswith("__i") and _n[3:-2] in INPLACE and _n not in ("__int__", "__index__", "__invert__", "__iter__") else _RET.get(_n, 7)))
+# names probed on an unbound proxy only (bound: pget covers repr / bool; the attribute-style names
+# return whatever the object has)
+UNBOUND_ONLY = ["__repr__", "__bool__", "__doc__", "__wrapped__", "__class__"]
+PROBE_NAMES = FORWARDED + ["__eq__", "__hash__"] + UNBOUND_ONLY
+
+
+def apply_forwarded(name, p):
+    """perform, on proxy `p`, the Python operation that reaches the special method `name`"""
+    import copy
+    import math
+    import operator
+
+    b = name[2:-2]
+    if b in BINARY:
+        return divmod(p, 1) if b == "divmod" else pow(p, 1) if b == "pow" else getattr(operator, b + "_" if b in ("and", "or") else b)(p, 1)
+    if b[0] == "r" and b[1:] in BINARY:
+        b = b[1:]
+        return divmod(1, p) if b == "divmod" else pow(1, p) if b == "pow" else getattr(operator, b + "_" if b in ("and", "or") else b)(1, p)
+    if b[0] == "i" and b[1:] in INPLACE:
+        return getattr(operator, b)(p, 1)  # what `p <op>= 1` evaluates
+    simple = {
+        "__str__": str, "__bytes__": bytes, "__repr__": repr, "__bool__": bool, "__hash__": hash, "__iter__": iter, "__next__": next,
+        "__reversed__": reversed, "__neg__": operator.neg, "__pos__": operator.pos, "__abs__": abs, "__invert__": operator.invert,
+        "__complex__": complex, "__int__": int, "__float__": float, "__index__": operator.index, "__round__": round,
+        "__trunc__": math.trunc, "__floor__": math.floor, "__ceil__": math.ceil, "__copy__": copy.copy, "__deepcopy__": copy.deepcopy,
+        "__dir__": dir,
+    }  # fmt: skip
+    if name in simple:
+        return simple[name](p)
+    if name == "__format__":
+        return format(p, "x")
+    if name in ("__lt__", "__le__", "__eq__", "__ne__", "__gt__", "__ge__"):
+        return getattr(operator, b)(p, 1)
+    if name == "__call__":
+        return p(1)
+    if name == "__getitem__":
+        return p[1]
+    if name == "__setitem__":
+        p[1] = 2
+        return None
+    if name == "__delitem__":
+        del p[1]
+        return None
+    if name == "__contains__":
+        return 1 in p
+    if name == "__enter__":
+        return type(p).__enter__(p)  # what `with p:` evaluates
+    if name == "__exit__":
+        return type(p).__exit__(p, None, None, None)
+    if name in ("__doc__", "__wrapped__", "__class__"):
+        return getattr(p, name)
+    raise ValueError(name)
 
 
 class FalsyBox(Box):
@@ -63,6 +171,9 @@ def kind(b):
     return b % 8
 
 
+kind_of = kind
+
+
 def is_scalar(b):
     return kind(b) >= 5
 
@@ -75,19 +186,24 @@ def vname(b):
     return f"s{slot(b)}" if is_scalar(b) else str(b)
 
 
-def make_payload(b):
+def make_payload(b, reg=None):
     k = kind(b)
     if k == 0:
-        return Box(b)
+        return Box(b, reg)
     if k == 1:
         return {}
     if k == 2:
         return []
     if k == 3:
-        return FalsyBox(b)
+        return FalsyBox(b, reg)
     if k == 4:
-        return ZeroLen(b)
+        return ZeroLen(b, reg)
     return SCALARS[slot(b)]
+
+
+def attr_of(b):
+    """`attrgetter("peer")` on the payload named b: boxes have a peer, nothing else has"""
+    return b + 64 if kind(b) in (0, 3, 4) else None
 
 
 class Registry:
@@ -101,7 +217,7 @@ class Registry:
         if is_scalar(b):
             return SCALARS[slot(b)]
         if b not in self.objs:
-            o = make_payload(b)
+            o = make_payload(b, self)
             self.objs[b] = o
             self.ids[id(o)] = b
         return self.objs[b]
@@ -300,13 +416,28 @@ RUNNERS = {"ctx": CtxRunner, "thread": ThreadRunner, "async": AsyncRunner}
 # running a case on the real code
 
 
-def run_real(case):
-    from werkzeug.local import Local, LocalManager, LocalProxy, LocalStack, release_local
+SLOT_IS_STACK = {0: False, 1: True, 2: False}
+REUSE = {}  # id(case) -> (instances created by `new`, of which at the address of a discarded one)
 
+
+def run_real(case):
+    import gc
+
+    from werkzeug.local import Local, LocalManager, LocalProxy, LocalStack, release_local
+    from werkzeug.wsgi import ClosingIterator  # noqa: F401  (what make_middleware wraps with)
+
+    # slot -> instance (None = dropped); slots 0 and 2 hold Locals, slot 1 a LocalStack
     objs = {0: Local(), 1: LocalStack(), 2: Local()}
-    manager = LocalManager([objs[0], objs[1], objs[2]])
+    nhandle = [3]
+    # addresses of discarded instances, per class: a later `new` hunts for one of them (CPython hands
+    # a freed block to one of the next allocations of the same size)
+    dropped = {False: set(), True: set()}
+    stats = [0, 0]
     reg = Registry()
-    proxies = []
+    proxies = []  # the proxy (None once dropped)
+    wrapped = []  # what it was constructed from
+    cvars = [contextvars.ContextVar("app0"), contextvars.ContextVar("app1")]  # bare application vars
+    managers = []  # LocalManager objects created by `mnew`
     runner = RUNNERS[case["mode"]]()
     nctx = 1
     box = reg.get
@@ -314,12 +445,37 @@ def run_real(case):
 
     def observe():
         def obs():
-            l0 = fmt_items((k[1:], bx(v)) for k, v in iter(objs[0]))
-            l2 = fmt_items((k[1:], bx(v)) for k, v in iter(objs[2]))
+            l0 = "~" if objs[0] is None else fmt_items((k[1:], bx(v)) for k, v in iter(objs[0]))
+            l2 = "~" if objs[2] is None else fmt_items((k[1:], bx(v)) for k, v in iter(objs[2]))
+            if objs[1] is None:
+                return f"L{l0}M{l2}S~"
             t = objs[1].top
             return f"L{l0}M{l2}S{'None' if t is None else bx(t)}"
 
         return "/".join(runner.call(c, obs) for c in range(nctx))
+
+    def discard(slot):
+        o = objs[slot]
+        if o is not None:
+            dropped[SLOT_IS_STACK[slot]].add(id(o))
+            objs[slot] = None
+
+    def construct(slot):
+        cls = LocalStack if SLOT_IS_STACK[slot] else Local
+        want = dropped[SLOT_IS_STACK[slot]]
+        hold = []
+        o = cls()
+        while want and id(o) not in want and len(hold) < 48:
+            hold.append(o)
+            o = cls()
+        stats[0] += 1
+        if id(o) in want:
+            stats[1] += 1
+            want.discard(id(o))
+        for x in hold:
+            want.discard(id(x))  # those addresses were live meanwhile; they are free again now
+        del hold
+        return o
 
     def do(op):
         nonlocal nctx
@@ -333,7 +489,40 @@ def run_real(case):
             nctx += 1
             return f"ctx{n}"
         c = op[1]
-        if kind == "set":
+        if kind in ("set", "get", "del", "iter", "push", "pop", "top", "rel", "amut", "tmut") and objs[op[2]] is None:
+            return "nolocal"
+        if kind == "new":
+            slot = op[2]
+
+            def f():
+                discard(slot)
+                objs[slot] = construct(slot)
+                nhandle[0] += 1
+                return f"h{nhandle[0] - 1}"
+
+        elif kind == "drop":
+            slot = op[2]
+            if objs[slot] is None:
+                return "nolocal"
+
+            def f():
+                discard(slot)
+                return "ok"
+
+        elif kind == "gc":
+
+            def f():
+                gc.collect()
+                return "ok"
+
+        elif kind == "pdrop":
+            _, _, i = op
+
+            def f():
+                proxies[i] = None
+                return "ok"
+
+        elif kind == "set":
             _, _, v, k, b = op
 
             def f():
@@ -392,27 +581,116 @@ def run_real(case):
                 release_local(objs[v])
                 return "ok"
 
-        elif kind == "cleanup":
+        elif kind == "mnew":
+            form, mslots = op[2], op[3:]
 
             def f():
-                manager.cleanup()
+                # constructed in context c: whatever the managed locals hold *here* must not matter
+                ls = [objs[v] for v in mslots]
+                if form == "one":
+                    m = LocalManager(ls[0])
+                elif form == "list":
+                    m = LocalManager(ls)
+                elif form == "tuple":
+                    m = LocalManager(tuple(ls))
+                elif form == "iter":
+                    m = LocalManager(iter(ls))
+                elif form == "append":
+                    m = LocalManager()
+                    for x in ls:
+                        m.locals.append(x)
+                else:
+                    raise ValueError(form)
+                managers.append(m)
+                return f"m{len(managers) - 1}"
+
+        elif kind == "mclean":
+            _, _, k, how = op
+
+            def f():
+                m = managers[k]
+                if how == 0:
+                    m.cleanup()
+                    return "ok"
+                # the WSGI middleware: the locals are released when the server closes the response
+
+                def app(environ, start_response):
+                    start_response("200 OK", [])
+                    return [b"x"]
+
+                wrapped_app = m.make_middleware(app) if how == 1 else m.middleware(app)
+                it = wrapped_app({}, lambda *a: None)
+                body = b"".join(it)
+                it.close()
+                return "ok" if body == b"x" else "BAD-BODY"
+
+        elif kind == "cleanup":
+            variant = op[2] if len(op) > 2 else 0
+            live = [o for o in (objs[0], objs[1], objs[2]) if o is not None]
+
+            def f():
+                if variant == 1:
+                    manager = LocalManager()
+                    manager.locals.extend(live)
+                    manager.cleanup()
+                elif variant == 2:
+                    # the WSGI middleware: cleanup runs when the response iterable is closed
+                    manager = LocalManager(iter(live))
+
+                    def app(environ, start_response):
+                        return [b"x"]
+
+                    it = manager.make_middleware(app)({}, lambda *a: None)
+                    body = b"".join(it)
+                    it.close()
+                    if body != b"x":
+                        return "BAD-BODY"
+                elif variant == 3:
+                    # a single Local instead of a list
+                    if objs[0] is not None:
+                        LocalManager(objs[0]).cleanup()
+                else:
+                    LocalManager(live).cleanup()
                 return "ok"
 
         elif kind == "pnew":
-            if op[2] == "attr":
-                _, _, _, v, k = op
+            how = op[2]
+            named = how.endswith("attr") and how != "attr"
+            name = "peer" if named else None
 
-                def f():
+            def f():
+                n = len(proxies)
+                if how == "attr":
+                    v, k = op[3], op[4]
+                    src = objs[v]
                     # both spellings of proxy creation
-                    proxies.append(LocalProxy(objs[v], f"n{k}") if (len(proxies) % 2 == 0) else objs[v](f"n{k}"))
-                    return f"p{len(proxies) - 1}"
+                    px = LocalProxy(src, f"n{k}") if n % 2 == 0 else src(f"n{k}")
+                elif how in ("top", "topattr"):
+                    src = objs[op[3]]
+                    px = (src(name) if named else src()) if n % 2 == 0 else LocalProxy(src, name)
+                elif how in ("cvar", "cvarattr"):
+                    src = cvars[op[3]]
+                    px = LocalProxy(src, name)
+                elif how in ("const", "constattr"):
+                    o = box(op[3])
+                    src = lambda: o  # noqa: E731
+                    px = LocalProxy(src, name)
+                elif how in ("via", "viaattr"):
+                    inner = proxies[op[3]]
+                    src = lambda: inner._get_current_object()  # noqa: E731
+                    px = LocalProxy(src, name)
+                else:
+                    raise ValueError(how)
+                proxies.append(px)
+                wrapped.append(src)
+                return f"p{n}"
 
-            else:
-                _, _, _, v = op
+        elif kind == "cvset":
+            _, _, j, b = op
 
-                def f():
-                    proxies.append(objs[v]() if (len(proxies) % 2 == 0) else LocalProxy(objs[v]))
-                    return f"p{len(proxies) - 1}"
+            def f():
+                cvars[j].set(box(b))
+                return "ok"
 
         elif kind == "pget":
             _, _, i = op
@@ -424,6 +702,10 @@ def run_real(case):
                 except RuntimeError:
                     s = "RuntimeError"
                     o = None
+                except AttributeError:
+                    # attrgetter(name) failed on the bound object (bound, but not what the proxy's
+                    # name asks for): not a case of the property; recorded for the correspondence
+                    return "AttributeError"
                 else:
                     # the object must be the very payload bound here, and reads through the proxy
                     # must see its content
@@ -444,6 +726,8 @@ def run_real(case):
                     o = p._get_current_object()
                 except RuntimeError:
                     return "RuntimeError"
+                except AttributeError:
+                    return "AttributeError"
                 # mutate *through the proxy*
                 if isinstance(o, dict):
                     p["k"] = fv
@@ -454,6 +738,55 @@ def run_real(case):
                 else:
                     return "immutable"
                 return "ok"
+
+        elif kind == "plook":
+            _, _, i, name = op
+
+            def f():
+                global PROBE_LOG
+                p = proxies[i]
+                try:
+                    o = p._get_current_object()
+                except RuntimeError:
+                    o = None
+                except AttributeError:
+                    o = AttributeError
+                if o is not None and o is not AttributeError and (name in UNBOUND_ONLY or not isinstance(o, Box)):
+                    return "skip"
+                PROBE_LOG = []
+                try:
+                    if o is None or o is AttributeError:
+                        # nothing to forward to: access the forwarded name itself (through an operator
+                        # CPython's slot lookup would swallow the error for some names: `p < 1` on an
+                        # unbound proxy is a TypeError, `p == 1` is False, `hash(p)` "unhashable")
+                        res = getattr(p, name)
+                        if name in ("__bool__", "__repr__", "__dir__"):
+                            res = res()
+                    else:
+                        res = apply_forwarded(name, p)
+                    log = PROBE_LOG
+                except RuntimeError:
+                    return "RuntimeError"
+                except AttributeError:
+                    return "AttributeError"
+                finally:
+                    PROBE_LOG = None
+                if o is None:
+                    # unbound and no exception: a declared fallback answered
+                    if res is False:
+                        return "fallback:False"
+                    if res is LocalProxy:
+                        return "fallback:LocalProxy"
+                    if res is wrapped[i]:
+                        return "fallback:<the wrapped local>"
+                    if isinstance(res, str) and res == LocalProxy.__doc__:
+                        return "fallback:<the class docstring>"
+                    return f"fallback:{res!r}"
+                if o is AttributeError:
+                    return "no-error"
+                if log != [(o.bid, name)]:
+                    return f"WRONG-FORWARD({log!r}, expected {[(o.bid, name)]!r})"
+                return ("keep:" if res is p else "fwd:") + bx(o)
 
         elif kind == "amut":
             _, _, v, k, fv = op
@@ -486,6 +819,8 @@ def run_real(case):
 
             def drain():
                 xs = []
+                if objs[1] is None:
+                    return "-"
                 for _ in range(64):
                     x = objs[1].pop()
                     if x is None:
@@ -497,6 +832,7 @@ def run_real(case):
         out.append("drain|" + "/".join(drains))
     finally:
         runner.close()
+        REUSE[id(case)] = tuple(stats)
     return ";".join(out)
 
 
@@ -505,9 +841,13 @@ def run_real(case):
 
 
 def run_reference(case):
-    ctxs = [{}]  # var -> tuple of (k, b) pairs | tuple of b      (never mutated: always replaced)
+    """one immutable mapping / tuple per (context, instance); a slot names the instance it holds"""
+    ctxs = [{}]  # handle -> tuple of (k, b) pairs | tuple of b      (never mutated: always replaced)
+    slots = {0: 0, 1: 1, 2: 2}  # slot -> handle | None
+    nhandle = [3]
     fields = {}
     proxies = []
+    managers = []
 
     def b(x):
         return f"{vname(x)}:{0 if is_scalar(x) else fields.get(x, 0)}"
@@ -518,22 +858,47 @@ def run_reference(case):
         fields[x] = f
         return "ok"
 
+    def payload(c, v):
+        return ctxs[c].get(slots[v], ())
+
+    def put(c, v, new):
+        ctxs[c] = {**ctxs[c], slots[v]: new}
+
     def items(c, v):
-        return fmt_items((k, b(x)) for k, x in ctxs[c].get(v, ()))
+        if slots[v] is None:
+            return "~"
+        return fmt_items((k, b(x)) for k, x in payload(c, v))
 
     def top(c, v):
-        st = ctxs[c].get(v, ())
+        if slots[v] is None:
+            return "~"
+        st = payload(c, v)
         return b(st[-1]) if st else "None"
 
     def observe():
         return "/".join(f"L{items(c, 0)}M{items(c, 2)}S{top(c, 1)}" for c in range(len(ctxs)))
 
+    def get_name(x, named):
+        if not named:
+            return x
+        y = attr_of(x)
+        return "attrerr" if y is None else y
+
     def resolve(c, p):
+        """the object, None (unbound) or "attrerr" (attrgetter failed on the bound object)"""
         if p[0] == "attr":
             d = dict(ctxs[c].get(p[1], ()))
             return d.get(p[2])
-        st = ctxs[c].get(p[1], ())
-        return st[-1] if st else None
+        if p[0] == "top":
+            st = ctxs[c].get(p[1], ())
+            return get_name(st[-1], p[2]) if st else None
+        if p[0] == "cvar":
+            x = ctxs[c].get(("cv", p[1]))
+            return None if x is None else get_name(x, p[2])
+        if p[0] == "const":
+            return get_name(p[1], p[2])
+        x = resolve(c, p[1])
+        return x if x is None or x == "attrerr" else get_name(x, p[2])
 
     def do(op):
         kind = op[0]
@@ -544,62 +909,125 @@ def run_reference(case):
             ctxs.append({})
             return f"ctx{len(ctxs) - 1}"
         c = op[1]
+        if kind in ("set", "get", "del", "iter", "push", "pop", "top", "rel", "amut", "tmut") and slots[op[2]] is None:
+            return "nolocal"
+        if kind == "new":
+            # a newly constructed local: a new instance nobody has stored anything through, so it is
+            # empty / unbound in EVERY context - whatever the discarded instance of the slot held
+            slots[op[2]] = nhandle[0]
+            nhandle[0] += 1
+            return f"h{nhandle[0] - 1}"
+        if kind == "drop":
+            if slots[op[2]] is None:
+                return "nolocal"
+            slots[op[2]] = None
+            return "ok"
+        if kind == "gc":
+            return "ok"
+        if kind == "pdrop":
+            proxies[op[2]] = None
+            return "ok"
         if kind == "set":
             _, _, v, k, x = op
-            cur = ctxs[c].get(v, ())
+            cur = payload(c, v)
             if any(kk == k for kk, _ in cur):
                 new = tuple((kk, x if kk == k else xx) for kk, xx in cur)
             else:
                 new = cur + ((k, x),)
-            ctxs[c] = {**ctxs[c], v: new}
+            put(c, v, new)
             return "ok"
         if kind == "get":
             _, _, v, k = op
-            d = dict(ctxs[c].get(v, ()))
+            d = dict(payload(c, v))
             return b(d[k]) if k in d else "AttributeError"
         if kind == "del":
             _, _, v, k = op
-            cur = ctxs[c].get(v, ())
+            cur = payload(c, v)
             if not any(kk == k for kk, _ in cur):
                 return "AttributeError"
-            ctxs[c] = {**ctxs[c], v: tuple(p for p in cur if p[0] != k)}
+            put(c, v, tuple(p for p in cur if p[0] != k))
             return "ok"
         if kind == "iter":
             return items(c, op[2])
         if kind == "push":
             _, _, v, x = op
-            new = ctxs[c].get(v, ()) + (x,)
-            ctxs[c] = {**ctxs[c], v: new}
+            new = payload(c, v) + (x,)
+            put(c, v, new)
             return fmt_list(b(y) for y in new)
         if kind == "pop":
             v = op[2]
-            st = ctxs[c].get(v, ())
+            st = payload(c, v)
             if not st:
                 return "None"
-            ctxs[c] = {**ctxs[c], v: st[:-1]}
+            put(c, v, st[:-1])
             return b(st[-1])
         if kind == "top":
             return top(c, op[2])
         if kind == "rel":
-            ctxs[c] = {**ctxs[c], op[2]: ()}
+            put(c, op[2], ())
+            return "ok"
+        if kind == "mnew":
+            # a manager manages exactly the locals it was given - the instances, not the slots
+            managers.append([slots[v] for v in op[3:]])
+            return f"m{len(managers) - 1}"
+        if kind == "mclean":
+            # cleanup (directly, or when the middleware's response is closed) releases every managed
+            # local in the calling context
+            for h in managers[op[2]]:
+                ctxs[c] = {**ctxs[c], h: ()}
             return "ok"
         if kind == "cleanup":
-            ctxs[c] = {**ctxs[c], 0: (), 1: (), 2: ()}
+            variant = op[2] if len(op) > 2 else 0
+            for v in ((0,) if variant == 3 else (0, 1, 2)):
+                if slots[v] is not None:
+                    put(c, v, ())
             return "ok"
         if kind == "pnew":
-            proxies.append(("attr", op[3], op[4]) if op[2] == "attr" else ("top", op[3]))
+            how = op[2]
+            named = how.endswith("attr") and how != "attr"
+            if how == "attr":
+                # a proxy is bound to the instance that is in the slot now
+                proxies.append(("attr", slots[op[3]], op[4]))
+            elif how in ("top", "topattr"):
+                proxies.append(("top", slots[op[3]], named))
+            elif how in ("cvar", "cvarattr"):
+                proxies.append(("cvar", op[3], named))
+            elif how in ("const", "constattr"):
+                proxies.append(("const", op[3], named))
+            else:
+                proxies.append(("via", proxies[op[3]], named))
             return f"p{len(proxies) - 1}"
+        if kind == "cvset":
+            ctxs[c] = {**ctxs[c], ("cv", op[2]): op[3]}
+            return "ok"
         if kind == "pget":
             x = resolve(c, proxies[op[2]])
+            if x == "attrerr":
+                return "AttributeError"
             return "RuntimeError,False,unbound" if x is None else f"{b(x)},{not falsy_of(x, fields)},Box"
         if kind == "pmut":
             x = resolve(c, proxies[op[2]])
+            if x == "attrerr":
+                return "AttributeError"
             return "RuntimeError" if x is None else mutate(x, op[3])
+        if kind == "plook":
+            # the property's clause: unbound -> RuntimeError, except the declared fallbacks (falsy,
+            # fallback repr, ...); bound -> the operation reaches exactly the object bound here (and an
+            # in-place operator hands back the proxy)
+            x = resolve(c, proxies[op[2]])
+            name = op[3]
+            if x == "attrerr":
+                return "AttributeError"
+            if x is None:
+                return {"__bool__": "fallback:False", "__repr__": "fallback:'<LocalProxy unbound>'", "__dir__": "fallback:[]", "__class__": "fallback:LocalProxy", "__wrapped__": "fallback:<the wrapped local>", "__doc__": "fallback:<the class docstring>"}.get(name, "RuntimeError")
+            if name in UNBOUND_ONLY or kind_of(x) not in (0, 3, 4):
+                return "skip"
+            return ("keep:" if name[2] == "i" and name[3:-2] in INPLACE and name not in ("__int__", "__index__", "__invert__", "__iter__") else "fwd:") + b(x)
         if kind == "amut":
-            d = dict(ctxs[c].get(op[2], ()))
+            d = dict(payload(c, op[2]))
             return mutate(d[op[3]], op[4]) if op[3] in d else "AttributeError"
         if kind == "tmut":
-            st = ctxs[c].get(op[2], ())
+            st = payload(c, op[2])
             return mutate(st[-1], op[3]) if st else "None"
         raise ValueError(op)
 
@@ -609,9 +1037,10 @@ def run_reference(case):
         out.append(f"{r}|{observe()}")
     drains = []
     for c in range(len(ctxs)):
-        st = ctxs[c].get(1, ())
+        st = payload(c, 1) if slots[1] is not None else ()
         drains.append(fmt_list(b(x) for x in reversed(st)))
-        ctxs[c] = {**ctxs[c], 1: ()}
+        if slots[1] is not None:
+            put(c, 1, ())
     out.append("drain|" + "/".join(drains))
     return ";".join(out)
 
@@ -670,11 +1099,18 @@ def exhaustive_cases(depth, mode, reduced=False):
         yield {"mode": mode, "ops": ops}
 
 
-def random_case(rng, mode, maxlen=14):
+SLOT_OPS = ("set", "get", "del", "iter", "push", "pop", "top", "rel", "amut", "tmut")
+
+
+def random_case(rng, mode, maxlen=14, life=0.0):
+    """`life` = probability mass of lifecycle operations (new / drop / gc / dropping a proxy)"""
     ops = []
     nctx = 1
     nbox = [0]
+    live = {0, 1, 2}
+    palive = []  # indices of proxies not dropped
     nprox = 0
+    nman = [0]
 
     def nb():
         nbox[0] += 1
@@ -689,43 +1125,232 @@ def random_case(rng, mode, maxlen=14):
             return rng.randrange(1, nbox[0] + 1) + 8 * rng.randrange(1, 4)
         return nb()
 
+    def local_slot():
+        cand = [v for v in LOCAL_VARS if v in live]
+        return rng.choice(cand) if cand else None
+
     n = rng.randrange(3, maxlen + 1)
-    while len(ops) < n:
-        r = rng.random()
+    guard = 0
+    while len(ops) < n and guard < 10 * maxlen:
+        guard += 1
         c = rng.randrange(nctx)
+        if life and rng.random() < life:
+            r = rng.random()
+            if r < 0.40:
+                ops.append(["new", c, rng.choice([0, 1, 2])])
+                live.add(ops[-1][2])
+            elif r < 0.65 and live:
+                v = rng.choice(sorted(live))
+                if rng.random() < 0.4:
+                    ops.append(["rel", c, v])
+                ops.append(["drop", c, v])
+                live.discard(v)
+            elif r < 0.8:
+                ops.append(["gc", c])
+            elif r < 0.9 and palive:
+                i = rng.choice(palive)
+                palive.remove(i)
+                ops.append(["pdrop", c, i])
+            elif r < 0.95 or not nman[0]:
+                ops.append(["cleanup", c, rng.randrange(4)])
+            else:
+                ops.append(["mclean", c, rng.randrange(nman[0]), rng.randrange(3)])
+            if rng.random() < 0.15 and live:
+                form = rng.choice(["one", "list", "tuple", "iter", "append"])
+                cand = sorted(live)
+                if form == "one":
+                    cand = [v for v in cand if v != STACK_VAR]  # a lone LocalStack is rejected (TypeError) by the current code
+                    if not cand:
+                        continue
+                    ops.append(["mnew", c, form, rng.choice(cand)])
+                else:
+                    ops.append(["mnew", c, form] + [rng.choice(cand) for _ in range(rng.randrange(0, 4))])
+                nman[0] += 1
+            continue
+        r = rng.random()
+        lv = local_slot()
         if (r < 0.1 or (nctx == 1 and len(ops) >= 2 and r < 0.5)) and nctx < 4:
             ops.append(["spawn", c] if rng.random() < 0.75 else ["fresh"])
             nctx += 1
-        elif r < 0.28:
-            ops.append(["set", c, rng.choice(LOCAL_VARS), rng.randrange(1, 4), oldbox()])
-        elif r < 0.36:
-            ops.append(["del", c, rng.choice(LOCAL_VARS), rng.randrange(1, 4)])
-        elif r < 0.42:
-            ops.append(["get", c, rng.choice(LOCAL_VARS), rng.randrange(1, 4)])
-        elif r < 0.44:
-            ops.append(["iter", c, rng.choice(LOCAL_VARS)])
-        elif r < 0.5:
-            ops.append(["amut", c, rng.choice(LOCAL_VARS), rng.randrange(1, 4), rng.randrange(1, 100)])
-        elif r < 0.60:
+        elif r < 0.28 and lv is not None:
+            ops.append(["set", c, lv, rng.randrange(1, 4), oldbox()])
+        elif r < 0.36 and lv is not None:
+            ops.append(["del", c, lv, rng.randrange(1, 4)])
+        elif r < 0.42 and lv is not None:
+            ops.append(["get", c, lv, rng.randrange(1, 4)])
+        elif r < 0.44 and lv is not None:
+            ops.append(["iter", c, lv])
+        elif r < 0.5 and lv is not None:
+            ops.append(["amut", c, lv, rng.randrange(1, 4), rng.randrange(1, 100)])
+        elif r < 0.60 and STACK_VAR in live:
             ops.append(["push", c, STACK_VAR, oldbox()])
-        elif r < 0.70:
+        elif r < 0.70 and STACK_VAR in live:
             ops.append(["pop", c, STACK_VAR])
-        elif r < 0.72:
+        elif r < 0.72 and STACK_VAR in live:
             ops.append(["top", c, STACK_VAR])
-        elif r < 0.75:
+        elif r < 0.75 and STACK_VAR in live:
             ops.append(["tmut", c, STACK_VAR, rng.randrange(1, 100)])
-        elif r < 0.79:
-            ops.append(["rel", c, rng.choice([0, 1, 2])])
+        elif r < 0.79 and live:
+            ops.append(["rel", c, rng.choice(sorted(live))])
         elif r < 0.81:
-            ops.append(["cleanup", c])
+            ops.append(["cleanup", c, rng.randrange(4)] if life else ["cleanup", c])
         elif r < 0.87:
-            ops.append(["pnew", c, "attr", rng.choice(LOCAL_VARS), rng.randrange(1, 4)] if rng.random() < 0.6 else ["pnew", c, "top", STACK_VAR])
+            q = rng.random()
+            if q < 0.4 and lv is not None:
+                ops.append(["pnew", c, "attr", lv, rng.randrange(1, 4)])
+            elif q < 0.65 and STACK_VAR in live:
+                ops.append(["pnew", c, "top" if q < 0.58 else "topattr", STACK_VAR])
+            elif q < 0.8:
+                ops.append(["pnew", c, "cvar" if q < 0.74 else "cvarattr", rng.randrange(2)])
+            elif q < 0.88:
+                ops.append(["pnew", c, "const" if q < 0.85 else "constattr", oldbox()])
+            elif palive:
+                ops.append(["pnew", c, "via" if q < 0.96 else "viaattr", rng.choice(palive)])
+            else:
+                continue
+            palive.append(nprox)
             nprox += 1
-        elif r < 0.95 and nprox:
-            ops.append(["pget", c, rng.randrange(nprox)])
-        elif nprox:
-            ops.append(["pmut", c, rng.randrange(nprox), rng.randrange(1, 100)])
+        elif r < 0.89:
+            ops.append(["cvset", c, rng.randrange(2), oldbox()])
+        elif r < 0.95 and palive:
+            ops.append(["pget", c, rng.choice(palive)])
+        elif r < 0.975 and palive:
+            ops.append(["plook", c, rng.choice(palive), rng.choice(PROBE_NAMES)])
+        elif palive:
+            ops.append(["pmut", c, rng.choice(palive), rng.randrange(1, 100)])
     return {"mode": mode, "ops": ops}
+
+
+def lifecycle_case(mode, slot, wctx, child_after, rel, proxy, gcflag, filler, rounds=2):
+    """the family of seeded change C18-c2: a local is written in some context, (a child is copied,)
+    it is (released and) dropped (its proxy held, dropped, or none; collected or not), other objects
+    are allocated, and a new local is constructed while the contexts that held the old payload are
+    alive. Observation after every step shows the new local in every context."""
+    ops = [["spawn", 0]]
+    nctx = 2
+    nprox = 0
+    box = [8 * 1]  # kind-0 boxes: ids 8, 16, 24, ...
+
+    def nb():
+        box[0] += 8
+        return box[0]
+
+    for rnd in range(rounds):
+        w = wctx
+        ops.append(["set", w, slot, 1, nb()] if slot != STACK_VAR else ["push", w, slot, nb()])
+        held = None
+        if proxy != "none":
+            ops.append(["pnew", w, "attr", slot, 1] if slot != STACK_VAR else ["pnew", w, "top", slot])
+            held = nprox
+            nprox += 1
+        if child_after and nctx < 4:
+            ops.append(["spawn", w])
+            nctx += 1
+        if rel:
+            ops.append(["rel", w, slot])
+        if proxy == "dropped":
+            ops.append(["pdrop", w, held])
+            held = None
+        ops.append(["drop", w, slot])
+        if gcflag:
+            ops.append(["gc", 0])
+        if filler:
+            other = 2 if slot == 0 else 0
+            ops.append(["set", 0, other, 2, nb()])
+            ops.append(["push", 1, STACK_VAR, nb()] if slot != STACK_VAR else ["set", 1, 2, 3, nb()])
+        ops.append(["new", (rnd + w) % nctx, slot])
+        # read the new local everywhere, directly and through a new proxy
+        ops.append(["pnew", 0, "attr", slot, 1] if slot != STACK_VAR else ["pnew", 0, "top", slot])
+        q = nprox
+        nprox += 1
+        for c in range(nctx):
+            ops.append(["get", c, slot, 1] if slot != STACK_VAR else ["top", c, slot])
+            ops.append(["pget", c, q])
+        if held is not None:
+            ops.append(["pget", w, held])  # the old instance, kept alive by its proxy, keeps its data
+        # store through the new local in one context; the others stay unbound
+        ops.append(["set", 0, slot, 1, nb()] if slot != STACK_VAR else ["push", 0, slot, nb()])
+        ops.append(["pget", 1, q])
+        ops.append(["pget", 0, q])
+    return {"mode": mode, "ops": ops}
+
+
+PROXY_KINDS = ["attr", "top", "topattr", "cvar", "cvarattr", "const", "constattr", "via", "viaattr"]
+
+
+def forwarding_case(mode, how, names):
+    """one proxy of the given kind, bound to different boxes in a parent and its child, to a non-box
+    in a third context, unbound in a new thread: every forwarded special method is probed in each"""
+    ops = [
+        ["set", 0, 0, 1, 8], ["push", 0, 1, 16], ["cvset", 0, 0, 24], ["spawn", 0],
+        ["set", 1, 0, 1, 32], ["push", 1, 1, 40], ["cvset", 1, 0, 48], ["spawn", 0],
+        ["set", 2, 0, 1, 1], ["push", 2, 1, 2], ["cvset", 2, 0, 5], ["fresh"],
+    ]  # fmt: skip
+    if how == "attr":
+        ops.append(["pnew", 0, "attr", 0, 1])
+    elif how in ("top", "topattr"):
+        ops.append(["pnew", 0, how, 1])
+    elif how in ("cvar", "cvarattr"):
+        ops.append(["pnew", 0, how, 0])
+    elif how in ("const", "constattr"):
+        ops.append(["pnew", 0, how, 56])
+    else:
+        ops.append(["pnew", 0, "cvar", 0])
+        ops.append(["pnew", 0, how, 0])
+    i = 1 if how in ("via", "viaattr") else 0
+    for c in range(4):
+        ops.append(["pget", c, i])
+    for n in names:
+        for c in range(4):
+            ops.append(["plook", c, i, n])
+    return {"mode": mode, "ops": ops}
+
+
+def forwarding_cases(mode, rng=None, per_case=None):
+    for how in PROXY_KINDS:
+        names = list(PROBE_NAMES)
+        if per_case is not None:
+            rng.shuffle(names)
+            names = names[:per_case]
+        yield forwarding_case(mode, how, names)
+
+
+def manager_case(mode, form, mslots, bound_at_new, how, child):
+    """the family of seeded change C18-d2: a LocalManager in each constructor form, built in a context
+    where the managed locals are empty or not, then data is stored, cleanup runs (directly / through
+    the WSGI middleware) and the same context is used again ("the next request on this worker")"""
+    ops = []
+    if bound_at_new:
+        ops += [["set", 0, 0, 1, 8], ["push", 0, 1, 16]]
+    ops.append(["mnew", 0, form] + list(mslots))
+    if child:
+        ops.append(["spawn", 0])
+    w = 1 if child else 0
+    ops += [["set", w, 0, 1, 24], ["set", w, 2, 2, 32], ["push", w, 1, 40], ["push", w, 1, 48]]
+    ops.append(["mclean", w, 0, how])
+    ops += [["get", w, 0, 1], ["get", w, 2, 2], ["top", w, 1], ["get", 0, 0, 1], ["top", 0, 1]]
+    ops += [["set", w, 0, 3, 56], ["push", w, 1, 64], ["mclean", w, 0, (how + 1) % 3], ["iter", w, 0], ["top", w, 1]]
+    return {"mode": mode, "ops": ops}
+
+
+def manager_cases(mode):
+    forms = [("one", (0,)), ("one", (2,)), ("list", (0,)), ("list", (0, 1, 2)), ("list", (1,)), ("tuple", (2, 1)), ("iter", (1, 0)), ("append", (0, 1)), ("append", ()), ("list", (0, 0, 1))]
+    for form, mslots in forms:
+        for bound_at_new in (False, True):
+            for how in (0, 1, 2):
+                for child in (False, True):
+                    yield manager_case(mode, form, mslots, bound_at_new, how, child)
+
+
+def lifecycle_cases(mode):
+    for slot in (0, 1):
+        for wctx in (0, 1):
+            for child_after in (False, True):
+                for rel in (False, True):
+                    for proxy in ("none", "held", "dropped"):
+                        for gcflag in (False, True):
+                            for filler in (False, True):
+                                yield lifecycle_case(mode, slot, wctx, child_after, rel, proxy, gcflag, filler)
 
 
 def enc_op(op):
@@ -760,6 +1385,16 @@ class Contexts(Stream):
             [["set", 0, 0, 1, 5], ["spawn", 0], ["set", 1, 0, 1, 21], ["get", 1, 0, 1], ["set", 1, 0, 1, 13], ["get", 1, 0, 1], ["get", 0, 0, 1]],  # 0, False, 0.0
             [["set", 0, 0, 1, 1], ["set", 0, 0, 1, 9], ["amut", 0, 0, 1, 3], ["get", 0, 0, 1]],
             [["set", 0, 0, 1, 1], ["set", 0, 2, 1, 2], ["del", 0, 0, 1], ["get", 0, 2, 1], ["set", 0, 0, 2, 3], ["set", 0, 0, 1, 4], ["set", 0, 0, 2, 5], ["iter", 0, 0]],
+            # object lifecycle (seeded change C18-c2): a local is written, replaced / dropped, and a new one is
+            # constructed (at the old address) while the contexts holding the old payload are alive
+            [["set", 0, 0, 1, 16], ["new", 0, 0]],
+            [["push", 0, 1, 16], ["spawn", 0], ["drop", 0, 1], ["gc", 0], ["new", 1, 1], ["top", 0, 1], ["top", 1, 1], ["pnew", 0, "top", 1], ["pget", 0, 0], ["pget", 1, 0]],
+            [["set", 0, 0, 1, 8], ["pnew", 0, "attr", 0, 1], ["spawn", 0], ["rel", 0, 0], ["drop", 0, 0], ["new", 1, 0], ["pget", 1, 0], ["pget", 0, 0], ["get", 1, 0, 1], ["pdrop", 0, 0], ["new", 0, 0], ["get", 1, 0, 1]],
+            [["set", 0, 0, 1, 8], ["set", 0, 2, 1, 16], ["push", 0, 1, 24], ["spawn", 0], ["cleanup", 1, 3], ["get", 1, 2, 1], ["cleanup", 1, 2], ["top", 1, 1], ["get", 0, 0, 1], ["cleanup", 0, 1], ["drop", 0, 2], ["cleanup", 0, 0]],
+            # proxies of every constructor form, in a parent, its child and an unrelated context
+            [["push", 0, 1, 8], ["cvset", 0, 0, 16], ["pnew", 0, "topattr", 1], ["pnew", 0, "cvar", 0], ["pnew", 0, "cvarattr", 0], ["pnew", 0, "const", 24], ["pnew", 0, "constattr", 1], ["pnew", 0, "via", 1], ["pnew", 0, "viaattr", 0], ["spawn", 0], ["fresh"], ["cvset", 1, 0, 2], ["push", 1, 1, 5]]
+            + [["pget", c, i] for i in range(7) for c in range(3)]
+            + [["plook", c, i, n] for i in (0, 1, 5) for c in range(3) for n in ("__iadd__", "__ior__", "__add__", "__bool__", "__repr__", "__class__", "__enter__", "__lt__")],
         ]
     ]
 
@@ -768,23 +1403,55 @@ class Contexts(Stream):
 
     def cases(self, rng, tier):
         if tier == "quick":
+            yield from manager_cases("ctx")
+            mc = list(manager_cases("thread")) + list(manager_cases("async"))
+            rng.shuffle(mc)
+            yield from mc[:40]
+            yield from forwarding_cases("ctx")
+            yield from forwarding_cases("thread", rng, 12)
+            yield from forwarding_cases("async", rng, 12)
+            yield from lifecycle_cases("ctx")
+            some = list(lifecycle_cases("thread")) + list(lifecycle_cases("async"))
+            rng.shuffle(some)
+            yield from some[:60]
             yield from exhaustive_cases(2, "ctx")
-            for _ in range(3000):
+            for _ in range(2400):
                 yield random_case(rng, "ctx")
-            for _ in range(600):
+            for _ in range(900):
+                yield random_case(rng, "ctx", 18, life=0.25)
+            for _ in range(500):
                 yield random_case(rng, "thread", 10)
-            for _ in range(600):
+            for _ in range(150):
+                yield random_case(rng, "thread", 12, life=0.25)
+            for _ in range(500):
                 yield random_case(rng, "async", 10)
+            for _ in range(150):
+                yield random_case(rng, "async", 12, life=0.25)
         else:
+            yield from manager_cases("ctx")
+            yield from manager_cases("thread")
+            yield from manager_cases("async")
+            yield from forwarding_cases("ctx")
+            yield from forwarding_cases("thread")
+            yield from forwarding_cases("async")
+            yield from lifecycle_cases("ctx")
+            yield from lifecycle_cases("thread")
+            yield from lifecycle_cases("async")
             yield from exhaustive_cases(3, "ctx")
             yield from exhaustive_cases(2, "thread")
             yield from exhaustive_cases(2, "async")
-            for _ in range(12000):
+            for _ in range(9000):
                 yield random_case(rng, "ctx", 24)
-            for _ in range(3000):
+            for _ in range(6000):
+                yield random_case(rng, "ctx", 28, life=0.25)
+            for _ in range(2400):
                 yield random_case(rng, "thread", 16)
-            for _ in range(3000):
+            for _ in range(1200):
+                yield random_case(rng, "thread", 18, life=0.25)
+            for _ in range(2400):
                 yield random_case(rng, "async", 16)
+            for _ in range(1200):
+                yield random_case(rng, "async", 18, life=0.25)
             yield from exhaustive_cases(4, "ctx", reduced=True)
 
     def real(self, case):
@@ -811,7 +1478,9 @@ class Contexts(Stream):
 
     def bucket(self, case, real_out):
         n = 1 + sum(op[0] in ("spawn", "fresh") for op in case["ops"])
-        return f"{case['mode']}:ctx={n}"
+        made, reused = REUSE.pop(id(case), (0, 0))
+        life = "" if not made else ":new@reused-address" if reused else ":new"
+        return f"{case['mode']}:ctx={n}{life}"
 
     def mutate(self, case, rng):
         ops = case["ops"]
@@ -824,43 +1493,307 @@ class Contexts(Stream):
                 yield {"mode": m, "ops": ops}
 
 
+# ---------------------------------------------------------------------------
+# stream `preempt`: real threads preempted between the LINES of the local.py methods
+
+
+class _LineGate:
+    """lets the controller run thread `i` for exactly one traced line of local.py at a time"""
+
+    def __init__(self, n):
+        self.go = [threading.Semaphore(0) for _ in range(n)]
+        self.arrived = [threading.Semaphore(0) for _ in range(n)]
+        self.done = [False] * n
+        self.free = False  # True: run to completion without stopping
+
+    def tracer(self, i, local_file):
+        def line(frame, event, arg):
+            if event == "line" and not self.free:
+                self.arrived[i].release()
+                self.go[i].acquire()
+            return line
+
+        def call(frame, event, arg):
+            if frame.f_code.co_filename == local_file:
+                return line
+            return None
+
+        return call
+
+
+def run_preempt(case):
+    """setup in a parent context, children copied / a fresh one; then one thread per context runs its
+    operations while the controller hands out single line-steps according to `schedule`"""
+    import sys
+
+    import werkzeug.local as wl
+    from werkzeug.local import Local, LocalStack, release_local
+
+    objs = {0: Local(), 1: LocalStack(), 2: Local()}
+    reg = Registry()
+    box, bx = reg.get, reg.name
+    ctxs = [contextvars.Context()]
+
+    def do(op):
+        k, v = op[0], op[2]
+        if k == "set":
+            setattr(objs[v], f"n{op[3]}", box(op[4]))
+            return "ok"
+        if k == "del":
+            try:
+                delattr(objs[v], f"n{op[3]}")
+                return "ok"
+            except AttributeError:
+                return "AttributeError"
+        if k == "get":
+            try:
+                return bx(getattr(objs[v], f"n{op[3]}"))
+            except AttributeError:
+                return "AttributeError"
+        if k == "push":
+            return fmt_list(bx(x) for x in objs[v].push(box(op[3])))
+        if k == "pop":
+            x = objs[v].pop()
+            return "None" if x is None else bx(x)
+        if k == "top":
+            x = objs[v].top
+            return "None" if x is None else bx(x)
+        if k == "rel":
+            release_local(objs[v])
+            return "ok"
+        raise ValueError(op)
+
+    for op in case["setup"]:
+        if op[0] == "spawn":
+            ctxs.append(ctxs[op[1]].run(contextvars.copy_context))
+        elif op[0] == "fresh":
+            ctxs.append(contextvars.Context())
+        else:
+            ctxs[op[1]].run(do, op)
+    n = len(case["threads"])
+    gate = _LineGate(n)
+    results = [[] for _ in range(n)]
+    errors = []
+
+    def worker(i):
+        def body():
+            sys.settrace(gate.tracer(i, wl.__file__))
+            try:
+                for op in case["threads"][i]:
+                    results[i].append(do(op))
+            except BaseException as e:  # noqa: BLE001
+                errors.append(e)
+            finally:
+                sys.settrace(None)
+
+        try:
+            ctxs[i].run(body)
+        finally:
+            gate.done[i] = True
+            gate.arrived[i].release()
+
+    ts = [threading.Thread(target=worker, args=(i,), daemon=True) for i in range(n)]
+    for t in ts:
+        t.start()
+    for i in range(n):  # every thread stops at its first traced line (or finishes)
+        if not gate.arrived[i].acquire(timeout=30):
+            raise RuntimeError("preempt: thread did not reach its first line")
+    for i in case["schedule"]:
+        if gate.done[i]:
+            continue
+        gate.go[i].release()
+        if not gate.arrived[i].acquire(timeout=30):
+            raise RuntimeError("preempt: thread did not come back")
+    gate.free = True
+    for i in range(n):
+        gate.go[i].release()
+    for t in ts:
+        t.join(timeout=30)
+    if errors:
+        raise errors[0]
+
+    def obs():
+        l0 = fmt_items((k[1:], bx(v)) for k, v in iter(objs[0]))
+        l2 = fmt_items((k[1:], bx(v)) for k, v in iter(objs[2]))
+        t = objs[1].top
+        return f"L{l0}M{l2}S{'None' if t is None else bx(t)}"
+
+    return "|".join(",".join(r) for r in results) + ";" + "/".join(c.run(obs) for c in ctxs)
+
+
+def preempt_sequential(case):
+    """the same operations without concurrency: setup, then the threads one after the other"""
+    ops = [list(o) for o in case["setup"]]
+    for t in case["threads"]:
+        ops += [list(o) for o in t]
+    return {"mode": "ctx", "ops": ops}
+
+
+def preempt_extract(case, trace_out):
+    """results of the threads' operations and the final observation, from a `contexts`-style trace"""
+    steps = trace_out.split(";")
+    k = len(case["setup"])
+    res = []
+    for t in case["threads"]:
+        res.append(",".join(st.split("|")[0] for st in steps[k : k + len(t)]))
+        k += len(t)
+    final = steps[k - 1].split("|", 1)[1] if k else ""
+    return "|".join(res) + ";" + final
+
+
+def preempt_case(rng):
+    setup = []
+    if rng.random() < 0.8:
+        setup.append(["set", 0, 0, 1, 8])
+    if rng.random() < 0.8:
+        setup.append(["push", 0, 1, 16])
+    if rng.random() < 0.3:
+        setup.append(["push", 0, 1, 24])
+    n = rng.choice([2, 2, 3])
+    for _ in range(n - 1):
+        setup.append(["spawn", 0] if rng.random() < 0.8 else ["fresh"])
+    nb = [32]
+
+    def b():
+        nb[0] += 8
+        return nb[0]
+
+    threads = []
+    for i in range(n):
+        t = []
+        for _ in range(rng.choice([1, 1, 2])):
+            r = rng.random()
+            if r < 0.3:
+                t.append(["set", i, 0, rng.randrange(1, 3), b()])
+            elif r < 0.45:
+                t.append(["del", i, 0, 1])
+            elif r < 0.65:
+                t.append(["push", i, 1, b()])
+            elif r < 0.8:
+                t.append(["pop", i, 1])
+            elif r < 0.9:
+                t.append(["rel", i, rng.choice([0, 1])])
+            else:
+                t.append(["get", i, 0, 1] if rng.random() < 0.5 else ["top", i, 1])
+        threads.append(t)
+    schedule = [rng.randrange(n) for _ in range(rng.randrange(4, 28))]
+    return {"setup": setup, "threads": threads, "schedule": schedule}
+
+
+class Preempt(Stream):
+    """real threads, one per context, preempted between the source lines of the `Local` /
+    `LocalStack` methods (sys.settrace + semaphores) according to a generated schedule. Oracle: the
+    results and the final observation of every context are those of running the threads one after the
+    other (`preemptive_isolation`: contexts do not see each other, so no schedule can matter)."""
+
+    name = "preempt"
+    corpus = [
+        # parent and child both inside __setattr__ / push, alternating line by line
+        {"setup": [["set", 0, 0, 1, 8], ["push", 0, 1, 16], ["spawn", 0]], "threads": [[["set", 0, 0, 2, 40]], [["set", 1, 0, 3, 48]]], "schedule": [0, 1, 0, 1, 0, 1, 0, 1]},
+        {"setup": [["set", 0, 0, 1, 8], ["push", 0, 1, 16], ["spawn", 0]], "threads": [[["push", 0, 1, 40]], [["push", 1, 1, 48]]], "schedule": [0, 1, 0, 1, 0, 1, 0, 1]},
+        {"setup": [["set", 0, 0, 1, 8], ["push", 0, 1, 16], ["spawn", 0]], "threads": [[["del", 0, 0, 1]], [["set", 1, 0, 1, 48], ["get", 1, 0, 1]]], "schedule": [0, 0, 1, 1, 0, 1, 0, 1, 1, 1]},
+        {"setup": [["push", 0, 1, 16], ["push", 0, 1, 24], ["spawn", 0], ["spawn", 0]], "threads": [[["pop", 0, 1]], [["pop", 1, 1], ["pop", 1, 1]], [["rel", 2, 1], ["push", 2, 1, 40]]], "schedule": [0, 1, 2, 0, 1, 2, 0, 1, 2, 1, 2, 1, 2]},
+    ]
+
+    def cases(self, rng, tier):
+        for _ in range(400 if tier == "quick" else 6000):
+            yield preempt_case(rng)
+
+    def real(self, case):
+        return run_preempt(case)
+
+    def model_line(self, case):
+        return line("trace", *[enc_op(o) for o in preempt_sequential(case)["ops"]])
+
+    def canon_model(self, case, out):
+        return preempt_extract(case, out)
+
+    def oracle(self, case, real_out):
+        ref = preempt_extract(case, run_reference(preempt_sequential(case)))
+        if real_out == ref:
+            return None
+        return f"under schedule {case['schedule']}: observed {real_out!r}, threads run one after the other give {ref!r}"
+
+    def nontrivial(self, case, real_out):
+        return len(set(case["schedule"])) > 1
+
+    def bucket(self, case, real_out):
+        return f"threads={len(case['threads'])}"
+
+    def mutate(self, case, rng):
+        sch = case["schedule"]
+        for i in range(len(sch)):
+            yield {**case, "schedule": sch[:i] + sch[i + 1 :]}
+        for i, t in enumerate(case["threads"]):
+            if len(t) > 1:
+                yield {**case, "threads": case["threads"][:i] + [t[:-1]] + case["threads"][i + 1 :]}
+
+
 def valid(ops):
-    n, p = 1, 0
+    n = 1
+    nman = 0
+    live = {0, 1, 2}
+    palive = []
     for op in ops:
-        if op[0] == "fresh":
+        k = op[0]
+        if k == "fresh":
             n += 1
             continue
         if op[1] >= n:
             return False
-        if op[0] == "spawn":
+        if k == "spawn":
             n += 1
-        if op[0] == "pnew":
-            p += 1
-        if op[0] in ("pget", "pmut") and op[2] >= p:
+        elif k in SLOT_OPS and op[2] not in live:
             return False
+        elif k == "new":
+            live.add(op[2])
+        elif k == "mnew":
+            if any(v not in live for v in op[3:]) or (op[2] == "one" and (len(op) != 4 or op[3] == STACK_VAR)):
+                return False
+            nman += 1
+        elif k == "mclean":
+            if op[2] >= nman:
+                return False
+        elif k == "drop":
+            if op[2] not in live:
+                return False
+            live.discard(op[2])
+        elif k == "pnew":
+            if op[2] in ("attr", "top", "topattr") and op[3] not in live:
+                return False
+            if op[2] in ("via", "viaattr") and (op[3] >= len(palive) or not palive[op[3]]):
+                return False
+            palive.append(True)
+        elif k in ("pget", "pmut", "pdrop", "plook"):
+            if op[2] >= len(palive) or not palive[op[2]]:
+                return False
+            if k == "pdrop":
+                palive[op[2]] = False
     return True
 
 
 CHECK = Check(
     prop="C18",
-    gen=["LocalOps"],
+    gen=["LocalOps", "LocalProxyTbl"],
     modules=["WzVerif.Props.C18"],
-    streams=[Contexts()],
+    streams=[Contexts(), Preempt()],
     assumptions=[
         "partial: the guarantees of contextvars itself (Context.run isolation, copy_context / create_task snapshot semantics, a new thread starting with an empty context) are assumed, not verified - the model's copyCtx/freshCtx encode them; they are exercised by the stream in all three realisations",
-        "partial: one method call is atomic in the model (GIL-level atomicity within a context; a context is only ever entered by one thread at a time); real preemption is not exhibited - threads are stepped by barriers",
+        "partial: the preemptive semantics (Model/LocalFine.lean) interleaves the primitive effects of concurrent calls; one primitive effect (dict.copy, list.append, ContextVar.set, ...) is atomic (GIL), a context is only ever entered by one thread at a time, and only a context's own idle thread copies it (contextvars) - assumed. Real preemption is exhibited at source-line granularity by the `preempt` stream (sys.settrace + semaphores); the `contexts` stream steps whole calls",
         "the bodies of Local.__setattr__/__delattr__/__getattr__/__iter__/__release_local__ and LocalStack.push/pop/top/__release_local__ are translated from the AST into effect lists on every run; the translator rejects any statement outside the subset these methods use (a rejected extraction is a broken obligation)",
         "values are opaque tokens in the model; dict.copy / list.copy / list[:-1] / {} / [] allocate fresh objects and dict insertion order is modelled by hand (validated by the stream)",
         "payloads are of eight kinds (Box, {}, [], an object with __bool__ False, an object with __len__()==0, falsy scalars, empty immutables, equal-but-distinct truthy scalars) so that bound-but-falsy objects and equal-but-distinct rebinding are exercised; the model's values stay opaque tokens, truthiness is a parameter `falsy` of proxyViewSrc",
-        "LocalProxy: the three faces with declared fallbacks (_get_current_object, bool, repr) and attribute get/set forwarding are modelled; the ~50 other forwarded dunder methods share the same _ProxyLookup.__get__ path and are not enumerated; proxies to bare ContextVars and callables are not modelled",
+        "LocalProxy: all constructor forms (Local+name, LocalStack[+name], ContextVar[+name], callable[+name]) are modelled (resolveP); _ProxyLookup.__get__ / _ProxyIOp are modelled by lookupGet over the forwarding table read from the live class (93 entries), their source text is pinned; ~75 of the forwarded special methods are exercised through real operators on bound proxies. On an UNBOUND proxy the stream accesses the forwarded name as an attribute: through an operator CPython's slot lookup swallows the RuntimeError for some names (`p < 1` is a TypeError, `p == 1` is False, `hash(p)` is 'unhashable', `iter(p)` 'not iterable') - below the Python level, outside the model; the three faces the property names (RuntimeError from _get_current_object, bool, repr) are checked through the real operators",
+        "object lifecycle: which ContextVar a Local()/LocalStack() gets is read from the AST of __init__ (CtorKind); the model gives `direct` the meaning 'a var nobody else has' (contextvars.ContextVar(...) returns a new var - assumed) and `indirect` the worst case (memoised by name/address); CPython's address re-use is modelled by arbitrary addresses in `create` events; the harness hunts for re-used addresses (evidence buckets `new@reused-address`)",
+        "attributes of payload objects (`attrgetter(name)` in named proxies) are a parameter attrOf of the model; the harness uses one attribute `peer` on boxes",
     ],
     trusted_extra=["CPython contextvars / threading / asyncio (exercised by the stream, not verified)", "tools/gen/c18.py AST translator (statement subset of local.py -> effect lists)"],
     quick_budget=6500,
-    thorough_budget=160000,
+    thorough_budget=90000,
 )
 
 MANIFEST = {
-    "level_text": "Partial: machine-checked Lean 4 meta-theorem over a heap/context model - if every method body satisfies the decidable CopyBeforeWrite discipline then for every interleaving of calls and context creations no operation changes what another context observes, a child keeps exactly its parent's snapshot, release is local, and proxy resolution depends only on the accessing context; the discipline is decided (by decide) on effect lists translated from local.py's AST on every run. The runtime (contextvars, threads, asyncio) is outside the model and exercised by a three-way differential stream (real code in Context.run / barrier-stepped threads / asyncio tasks vs. per-context immutable reference vs. Lean model).",
+    "level_text": "Partial: machine-checked Lean 4 meta-theorem over a heap/context model - if every method body satisfies the decidable CopyBeforeWrite discipline then for every interleaving of calls and context creations no operation changes what another context observes, a child keeps exactly its parent's snapshot, release (incl. LocalManager.cleanup over any list of locals) is local, and proxy resolution - for every constructor form and every forwarded operation - depends only on the accessing context; for every history of creations, disposals and collections a newly constructed local is unbound in every context and instances with distinct storage cells are isolated (own cells are distinct because each __init__ calls ContextVar(...) itself - an AST fact decided on every run); the discipline is decided (by decide) on effect lists translated from local.py's AST on every run. The runtime (contextvars, threads, asyncio) is outside the model and exercised by a three-way differential stream (real code in Context.run / barrier-stepped threads / asyncio tasks vs. per-context immutable reference vs. Lean model).",
     "level_note": "Partial: contextvars' own guarantees, GIL atomicity of a call and real preemption are assumed. Trusted: Lean kernel; the AST translator tools/gen/c18.py; the correspondence harness.",
     "technique": "Lean 4 proof (frame invariant over heap effects, induction over event traces; decide over AST-translated programs) + three-way differential testing of interleavings",
     "design_ref": "DESIGN.md section 4, C18",
